@@ -423,7 +423,7 @@ compile:
 	// While we're running, also update task stats directly into the tasks's status.
 	// TODO(marius): also aggregate stats across all tasks.
 	statsCtx, statsCancel := context.WithCancel(ctx)
-	go monitorTaskStats(statsCtx, m, task)
+	go monitorTaskStats(statsCtx, m, task, task.Status)
 
 	b.sess.tracer.Event(m, task, "B")
 	task.Set(TaskRunning)
@@ -461,11 +461,12 @@ compile:
 
 // monitorTaskStats monitors stats (e.g. records read/written) of the task
 // running on m, updating task's status until ctx is done.
-func monitorTaskStats(ctx context.Context, m *sliceMachine, task *Task) {
-	// The status of this run of the task. task.Status is overwritten (under
-	// the task's lock) when the task is run again, possibly while we are
-	// still finishing our last poll.
-	status := task.Status
+//
+// status is the status of this run of the task: task.Status is overwritten
+// (under the task's lock) when the task is run again, possibly while the
+// monitor of the previous run is still starting up or finishing its last
+// poll, so it is read by the caller and passed in.
+func monitorTaskStats(ctx context.Context, m *sliceMachine, task *Task, status *status.Task) {
 	wait := func() {
 		select {
 		case <-time.After(statsPollInterval):
